@@ -299,7 +299,7 @@ func (e *Engine) applyContract(fr *Frame, st *State, fn *ssa.Function, c *Contra
 	for _, m := range c.Modifies {
 		e.havocModifies(fr, st, env, m, cname)
 	}
-	if c.NoFrame && !c.Trusted {
+	if c.NoFrame {
 		// the callee's frame is not verified: nothing may be assumed unchanged
 		e.havocWholeHeap(st, "callee "+c.Key+" has no verified frame (noframe)", c.Preserves...)
 	}
